@@ -345,3 +345,19 @@ CHECKS["C20"] = {
     ],
     "mandatory_labels": {"all": ["round-trip", "round-trip/several-groups", "mutant/rejected", "mutant/entry-byte-flip", "mutant/key-duplicated", "mutant/existing-account"]},
 }
+
+CHECKS["C08"] = {
+    "level": "exploration",
+    "level_text": ("the real message pipeline (queues, device caches, process loop, secret store, event bus) under harness-owned schedules: preemption-bounded DFS on small scenarios and "
+                   "rapid-generated scenarios/choice vectors (1-2 senders, entries in any order and in batches, duplicates, registration before/between/after arrivals, cancellation); "
+                   "terminal-state oracle: every decryptable message delivered between once and once per arrival with original payload and sender, nothing decryptable parked"),
+    "level_note": "scheduling points in store_message.go, internal/queue/simple.go, internal/queue/priority.go (incl. between the cache lookup and the park); the OrbitDB fan-out loop is replaced by the harness; event-bus internals are not interleaved",
+    "technique": "generated-schedule exploration (controlled scheduler over instrumented copies of the real sources), terminal-state invariants",
+    "rule": ("case = one schedule of one scenario; non-trivial = a registration's queue processing ran between the consumer's cache lookup and its park, or the scenario parks an undecryptable "
+             "message below decryptable ones; distinct = (scenario, trace)"),
+    "assumptions": ["quiescence = the consumer is durably blocked in WaitForItem with an empty queue and all drivers finished (decided by the scheduler, not by time)"],
+    "units": [
+        {"pkg": ".", "run": "^TestVerif_C08_", "inst": ["store_message.go", "internal/queue/simple.go", "internal/queue/priority.go"], Q: {"timeout": 900}, T: {"timeout": 3400, "shards": 12}},
+    ],
+    "mandatory_labels": {"all": ["pipeline/dfs-schedules", "pipeline/registration-between-lookup-and-park", "pipeline/undecryptable-below-decryptable", "pipeline/with-cancel"]},
+}
